@@ -39,6 +39,7 @@ func init() {
 	probes["O27"] = probeO27
 	probes["O28"] = probeO28
 	probes["O29"] = probeO29
+	probes["O30"] = probeO30
 	probes["O23"] = probeO23
 	probes["O24"] = probeO24
 }
@@ -442,5 +443,23 @@ func probeO29() (bool, string) {
 		var t struct{ A, B []string }
 		err := c.Unpack(&t, sepVar...)
 		return err != nil || len(t.B) != 2, fmt.Sprint(err, t)
+	})
+}
+
+// O30: next to a "**" option (and a second explicit option), an explicit option whose
+// path runs through a list index is lost: the index entries of the handling tree are
+// dropped when the wildcard is carried over at a list level.
+func probeO30() (bool, string) {
+	return guard(func() (bool, string) {
+		a, _ := ucfg.NewFrom([]interface{}{map[string]interface{}{"a": 1}, map[string]interface{}{"a": 2}}, ucfg.PathSep("."))
+		b := []interface{}{map[string]interface{}{"b": 4}}
+		err := a.Merge(b, ucfg.PathSep("."), ucfg.FieldReplaceValues("0"), ucfg.FieldMergeValues("**.a"), ucfg.FieldMergeValues("b.b"))
+		if err != nil {
+			return true, err.Error()
+		}
+		var l []interface{}
+		a.Unpack(&l)
+		got := fmt.Sprint(l[0])
+		return got != "map[b:4]", "FieldReplaceValues(\"0\") next to FieldMergeValues(\"**.a\"), (\"b.b\"): element 0 = " + got + " (must be replaced: map[b:4])"
 	})
 }
